@@ -39,13 +39,15 @@ def reOf (n : String) : Option RE :=
 /-- protocol handler for C11: words of one op line (after the property id) → answer -/
 def handle (ws : List String) : String :=
   match ws with
-  | ["style", pos, s, multi, lex, libq] =>
-    match unhex s, parseLex lex with
-    | some bs, some lx =>
-      if pos == "v" then styleStr (valueStyle lx (libq == "1") bs (multi == "1"))
-      else if pos == "k" then styleStr (keyStyle lx (libq == "1") bs)
+  | ["style", pos, s, multi, lex, libq, np] =>
+    -- np: the runes of s that unicode.IsPrint rejects ("-" for none)
+    match unhex s, parseLex lex, natList? np with
+    | some bs, some lx, some bad =>
+      let P : IsPrint := fun r => !bad.contains r
+      if pos == "v" then styleStr (valueStyle P lx (libq == "1") bs (multi == "1"))
+      else if pos == "k" then styleStr (keyStyle P lx (libq == "1") bs)
       else "bad-op"
-    | _, _ => "bad-op"
+    | _, _, _ => "bad-op"
   | ["style3", _, s] =>
     match unhex s with
     | some bs => if shouldQuoteV3 bs then "double" else "other"
